@@ -61,14 +61,16 @@ Definition Known05 (w : world) (o : op) : bool :=
 Definition Pending05 (w : world) (o : op) : bool :=
   match o with
   | OpCopy _ _ | OpCopyAt _ _ _ | OpMove _ _ | OpMoveAt _ _ _
-  | OpSetItemName _ _ | OpRemoveFile _ _ | OpRemoveFromFile _ _ => true
+  | OpSetItemName _ _ => true
+  | OpRemoveFile m f => last_file w m f
   | _ => false
   end.
 
 (* pending for the COMBINED invariant Inv04 /\ Inv05 (set_item_name is proved for the combination only: it needs both) *)
 Definition Pending45 (w : world) (o : op) : bool :=
   match o with
-  | OpCopy _ _ | OpCopyAt _ _ _ | OpMove _ _ | OpMoveAt _ _ _ | OpRemoveFile _ _ | OpRemoveFromFile _ _ => true
+  | OpCopy _ _ | OpCopyAt _ _ _ | OpMove _ _ | OpMoveAt _ _ _ => true
+  | OpRemoveFile m f => last_file w m f
   | _ => false
   end.
 
